@@ -42,7 +42,8 @@ EXTENDS Naturals, Sequences, FiniteSets, TLC
 
 CONSTANTS NW,            \* number of writer threads (1..NW); thread NW+1 is the manual snapshotter
           OpsPerWriter, ManualSnaps, SnapEvery, RotAfter,
-          ManLockThroughCompaction, GuardUnderLock, SeqUnderSnapLock
+          ManLockThroughCompaction, GuardUnderLock, SeqUnderSnapLock,
+          LastUnderLock    \* TRUE (the code): last_wal_seq is read while snapshot_lock.write() is held; FALSE = twin of a seeded change
 
 Writers == 1..NW
 Snapper == NW + 1
@@ -141,9 +142,15 @@ SArrive(p) ==   \* a writer-lock request makes itself known; new readers are ref
 SCapture(p) ==  \* lock acquired when no reader and no other writer; capture; release
   /\ pc[p] = "s_wr" /\ p \in wrWait /\ rdHeld = {} /\ wrHeld = 0
   /\ wrWait' = wrWait \ {p}
-  /\ loc' = [loc EXCEPT ![p] = [NoLoc EXCEPT !.docs = mem, !.last = nextSeq - 1, !.id = nextFile]]
-  /\ nextFile' = nextFile + 1 /\ Goto(p, "s_file")
+  /\ loc' = [loc EXCEPT ![p] = [NoLoc EXCEPT !.docs = mem, !.last = IF LastUnderLock THEN nextSeq - 1 ELSE 0, !.id = nextFile]]
+  /\ nextFile' = nextFile + 1 /\ Goto(p, IF LastUnderLock THEN "s_file" ELSE "s_last")
   /\ UNCHANGED <<todo, rdHeld, wrHeld, gate, mlock, mem, nextSeq, counter, op, segs, active, snaps, man, maxSnapSeq>>
+
+SLast(p) ==     \* twin only: the counter is read after the lock was released
+  /\ pc[p] = "s_last"
+  /\ loc' = [loc EXCEPT ![p].last = nextSeq - 1]
+  /\ Goto(p, "s_file")
+  /\ UNCHANGED <<todo, rdHeld, wrHeld, wrWait, gate, mlock, mem, nextSeq, counter, op, segs, active, nextFile, snaps, man, maxSnapSeq>>
 
 SFile(p) ==
   /\ pc[p] = "s_file"
@@ -202,7 +209,7 @@ SUnlink(p) ==
 
 Next == \E p \in Procs :
           \/ WStart(p) \/ WRead(p) \/ WGate(p) \/ WSeq(p) \/ WAppend(p) \/ WRotCreate(p) \/ WRotMan(p) \/ WMem(p) \/ WDone(p)
-          \/ SArrive(p) \/ SCapture(p) \/ SFile(p) \/ SLock(p) \/ SGuard(p) \/ SMan1(p) \/ SMan2(p) \/ SUnlink(p)
+          \/ SArrive(p) \/ SCapture(p) \/ SLast(p) \/ SFile(p) \/ SLock(p) \/ SGuard(p) \/ SMan1(p) \/ SMan2(p) \/ SUnlink(p)
 
 (****************************** recovery function ****************************)
 ApplyFrame(m, f) == [m EXCEPT ![f.id] = f.v]
